@@ -16,7 +16,10 @@ RULE = ('every prefix of small generated documents, single-chunk deletion / dupl
         '{load_from_string, load_fragment, load(file)}; non-trivial = input that is rejected or produces diagnostics; distinct = distinct input')
 ASSUMPTIONS = ['wall-clock hanging and real stack depth are runtime facts: covered by the watchdog (60 s) and the 8 MiB thread stack of the harness, not by a theorem']
 SOUP = ['/begin', '/end', '/include', 'A2ML', 'IF_DATA', '"', '/*', '*/', '//', '\n', '0x', '1', '-', '1e5', 'ident', 'MODULE', 'PROJECT',
-        'ASAP2_VERSION', 'MEASUREMENT', '"str"', '/end A2ML', '/begin A2ML', '\\', "'", '.', 'x\x00y', 'é', '\r\n', '\t', ' ']
+        'ASAP2_VERSION', 'MEASUREMENT', '"str"', '/end A2ML', '/begin A2ML', '\\', "'", '.', 'x\x00y', 'é', '\r\n', '\t', ' ',
+        # multi-byte characters where the scanner expects a token (error excerpts are cut by byte offsets), characters that start
+        # no token, white space other than blank / tab / line ends
+        '°', 'Maßeinheit°C', '漢字', '\U0001F600', '{', '$', '/x', '\x0c', '\x0b', '\ufeff', '\u00a0', '"é', 'é"']
 VALID_SPEC = 'block "IF_DATA" taggedunion if_data { "XCP" struct { uint; }; };'
 INVALID_SPEC = 'block "IF_DATA" taggedunion {'
 
@@ -46,6 +49,12 @@ def gen_texts(rng, tier):
     for _ in range(400 if tier == 'quick' else 100000):
         n = rng.randrange(1, 25)
         texts.append(' '.join(rng.choice(SOUP) for _ in range(n)) if rng.random() < 0.7 else ''.join(rng.choice(SOUP) for _ in range(n)))
+    # the raw text of an A2ML block is a String token too: where the block stands in uninterpreted IF_DATA (or anywhere a string is
+    # expected) that text goes through get_string - texts that start with a quote, end in a multi-byte character, are one byte long
+    for raw in ('"é', '"', '""', '"a', '"é"', '"\\', 'é"', '"\U0001F600', 'x', '"漢', "'", '"\n"', '" é'):
+        for ctx in ('/begin IF_DATA X /begin A2ML%s /end A2ML /end IF_DATA', '/begin IF_DATA X /begin A2ML %s /end A2ML K 1 /end IF_DATA',
+                    '/begin A2ML%s /end A2ML', '/begin MEASUREMENT m /begin A2ML%s /end A2ML'):
+            texts.append('ASAP2_VERSION 1 71 /begin PROJECT p "" /begin MODULE m "" ' + (ctx % raw) + ' /end MODULE /end PROJECT')
     # IF_DATA read under an A2ML definition whose repeated members can match without taking a token (a reader that goes on
     # while "an item was read" never ends there): hand-written shapes and generated definitions, conforming and mutated content
     hdr2 = 'ASAP2_VERSION 1 71 /begin PROJECT p "" /begin MODULE m "" /begin A2ML %s /end A2ML /begin IF_DATA %s /end IF_DATA /end MODULE /end PROJECT'
